@@ -12,6 +12,7 @@ recall of planted repeats is explored per run, not proved.
 -/
 import Biogo.Proofs.PalsOracle
 import Biogo.Proofs.PalsSuppress
+import Biogo.Proofs.PalsOptimise
 import Biogo.Generated.PalsConsts
 
 namespace Biogo.Properties.C15
@@ -198,5 +199,40 @@ theorem suppression_keeps_best (sortStart sortEnd : List Hit → List Hit)
 
 example : suppress id id [⟨1, 1, 50, 50, 40⟩, ⟨1, 1, 60, 61, 45⟩, ⟨7, 9, 60, 61, 30⟩] =
     [⟨1, 1, 60, 61, 45⟩] := by decide
+
+
+/-! ### (d) `Optimise`: every accepted parameter set is usable by the filter -/
+
+open Biogo.PalsOptimise in
+/-- **`optimise_sound`**: whenever the parameter search of `Optimise` succeeds (the float
+    prefilter values `minWordSize`, `seedDiffs0` being inputs), the chosen parameters have a
+    positive q-gram threshold (`MinWordsPerFilterHit > 0`), a word size within
+    `[minWordSize, MaxKmerLen]`, `0 ≤ MaxError ≤ seedDiffs0`, `MinMatch ≤ minHitLen`, an average
+    index list length within `MaxAvgIndexListLen`, respect the memory cap, and — with the default
+    `tubeOffset = 0` argument — `TubeOffset = MaxError + TubeOffsetDelta ≥ MaxError`, which is
+    what `filter.Filter` requires. -/
+theorem optimise_sound (i : OptIn) (p : FParams) (h : optimise i = some p)
+    (hsd : 0 ≤ i.seedDiffs0) (hml : 0 ≤ i.minHitLen) :
+    minWords p.minMatch p.wordSize p.maxError > 0 ∧
+    i.minWordSize ≤ p.wordSize ∧ p.wordSize ≤ maxKmerLen ∧
+    0 ≤ p.maxError ∧ p.maxError ≤ i.seedDiffs0 ∧ 0 ≤ p.minMatch ∧ p.minMatch ≤ i.minHitLen ∧
+    i.tlen ≤ maxAvgIndexListLen * pow4 p.wordSize ∧
+    (∀ m, i.maxMem = some m → memRequired i p ≤ m) ∧
+    (i.tubeOffsetArg ≤ 0 → p.tubeOffset = p.maxError + tubeOffsetDelta ∧ p.tubeOffset ≥ p.maxError) := by
+  obtain ⟨k', sl', sd', a1, a2, a3, a4, a5, a6, a7, a8⟩ := outer_sound h hsd hml
+  subst a7
+  simp only [wordOK, Bool.and_eq_true, decide_eq_true_eq] at a8
+  obtain ⟨⟨b1, b2⟩, b3⟩ := a8
+  refine ⟨b2, a1, a2, a3, a4, a5, a6, b3, ?_, ?_⟩
+  · intro m hm
+    rw [hm] at b1
+    simpa using b1
+  · intro ht
+    have : ¬ i.tubeOffsetArg > 0 := by omega
+    simp only [mkParams, this, if_false, tubeOffsetDelta]
+    exact ⟨trivial, by omega⟩
+
+open Biogo.PalsOptimise in
+example : optimise (⟨29940, 0, 400, 39, 6, 0, none⟩ : OptIn) = some ⟨10, 400, 39, 71⟩ := by decide
 
 end Biogo.Properties.C15
